@@ -97,26 +97,30 @@ func verifBookOverlays(x *mc.X, ab addressbook.Interface) [][]byte {
 }
 
 func TestVerifC34Routetab(t *testing.T) {
+	if c34ref.InitErr != nil {
+		t.Fatalf("BROKEN-CHECK %v", c34ref.InitErr)
+	}
+	nk := len(c34ref.Keys)
 	type base struct {
 		rec, witness c34ref.Record
 		ops          []c34ref.Op
 	}
 	memo := map[int]*base{}
 	mc.Run(t, mc.Config{ID: "C34", Name: "C34-routetab-underlay", MaxDev: -1, Params: map[string]interface{}{
-		"keys":        "3 fixed secp256k1 keys",
+		"keys":        c34ref.KeyNames,
 		"underlays":   c34ref.Underlays,
 		"network_ids": []string{"0", "1", "2^64-1"},
-		"combos":      "all 27 (key, underlay, network): every operator except the per-byte ones; per-byte mutations on the 9 combos with network index = (key+underlay) mod 3 (quick) / all 27 (thorough)",
+		"combos":      "all (key, underlay, network): every operator except the per-byte ones; per-byte mutations on one combo per key (underlay index = key mod 3, network index = (key+underlay) mod 3) in quick / all combos in thorough",
 		"entry":       []string{"saveUnderlay([record under test, genuine record of a fourth (witness) key])", "FindUnderlay with the record under test as the reply"},
 		"mutations":   "same operator set as C34-aurora-parseaddress; for a network id mutation the receiving Service runs on the other network",
 		"observed":    "returned error/address and the complete address book (in-memory state store) afterwards",
 	}}, func(x *mc.X) {
-		combo := x.Choose(27)
+		combo := x.Choose(nk * 9)
 		ki, ui, ni := combo/9, (combo/3)%3, combo%3
 		b := memo[combo]
 		if b == nil {
 			b = &base{rec: verifGenuine(x, ki, ui, ni), witness: verifGenuineKey(x, c34ref.WitnessKey, (ui+1)%3, ni)}
-			b.ops = c34ref.Ops(b.rec, ki, mc.Thorough() || ni == (ki+ui)%3)
+			b.ops = c34ref.Ops(b.rec, ki, mc.Thorough() || (ui == ki%3 && ni == (ki+ui)%3))
 			memo[combo] = b
 		}
 		op := b.ops[verifChooseIdx(x, len(b.ops))]
@@ -127,7 +131,7 @@ func TestVerifC34Routetab(t *testing.T) {
 
 		ab := addressbook.New(mockstate.NewStateStore())
 		st := &verifStreamer{stream: &verifStream{}}
-		svc := &Service{addressbook: ab, logger: logging.New(io.Discard, 0), networkID: m.NetworkID, stream: st, self: boson.NewAddress(c34ref.OverlayOf(c34ref.PublicKey((ki + 2) % 3)))}
+		svc := &Service{addressbook: ab, logger: logging.New(io.Discard, 0), networkID: m.NetworkID, stream: st, self: boson.NewAddress(c34ref.OverlayOf(c34ref.PublicKey((ki + 2) % nk)))}
 		want, why := c34ref.Accept(m)
 
 		accepted := false
@@ -180,6 +184,12 @@ func TestVerifC34Routetab(t *testing.T) {
 				x.Check(len(got) == 1 && bytes.Equal(got[0], m.Overlay), "addressbook-differs-from-result", "FindUnderlay succeeded but the address book holds %d entries", len(got))
 			} else {
 				x.Check(len(got) == 0, "addressbook-touched-on-reject-"+field, "FindUnderlay failed (%v) but the address book holds %d entries", err, len(got))
+			}
+		}
+		if op.Kind == c34ref.OpNone {
+			x.Check(bytes.Equal(m.Overlay, c34ref.OverlayOf(c34ref.PublicKey(ki))), "overlay-is-not-the-keys-overlay", "crypto.NewOverlayAddress gives %x for key %d [%s], SHA3-256(keccak256(X||Y)) is %x", m.Overlay, ki, c34ref.KeyNames[ki], c34ref.OverlayOf(c34ref.PublicKey(ki)))
+			if ki >= 3 {
+				x.Tag("boundary-key-own-record")
 			}
 		}
 		x.Check(!accepted || want, "accepts-unauthenticated-"+field+"-"+entryName, "%s stored a record the reference rejects (%s): %s", entryName, field, why)
